@@ -4,6 +4,7 @@ package main
 
 import (
 	"fmt"
+	"strings"
 	"go/ast"
 	"go/token"
 	"go/types"
@@ -480,7 +481,7 @@ func (vc *VC) callEffects(eff *Effects, call *ast.CallExpr, info *types.Info, de
 		return
 	}
 	fi := vc.prog.ByObj[fn]
-	if fi != nil && fi.Decl != nil && fi.Decl.Body != nil && depth < 6 {
+	if fi != nil && fi.Decl != nil && fi.Decl.Body != nil && depth < 6 && strings.HasPrefix(fi.Pkg.PkgPath, modulePath) {
 		// would be inlined: analyse its body
 		loopFree := true
 		ast.Inspect(fi.Decl.Body, func(n ast.Node) bool {
@@ -741,6 +742,12 @@ func (vc *VC) havocEffects(s *State, eff *Effects) {
 	na := Fresh("alloc", SInt)
 	s.assume(Ge(na, s.alloc))
 	s.alloc = na
+	for _, name := range names {
+		vc.assumeFrame(s, name)
+		if f := vc.rootFact(name, s.heap[name], s.alloc); f != True {
+			s.assume(f)
+		}
+	}
 }
 
 func (vc *VC) loopSpec(st ast.Stmt) (*LoopSpec, string) {
